@@ -31,13 +31,15 @@ import numpy as np
 
 from vf import core
 from vf.core import CorrResult, Disagreement, Failure
+from translator import portable as trp
 
 ID = "C20"
 PROPS = "props/C20.v"
-GENERATED: list = []
+GENERATED = [trp.OUT]
 CASE_DEPS = ["model/Heap.vo", "model/Variants.vo", "model/Portable.vo"]
 ALLOWED_AXIOMS: set = set()
 TRUSTED = [
+    "translator/portable.py (kind codes, kind order, format tag and dictionary keys of to_portable -> gen/PortableGen.v)",
     "object-graph extraction in harness/C20.py: gc.get_referents closure from the two roots; modules, classes and module "
     "dictionaries are cut; immutable leaves (str, numbers, None, enum members, Period, code objects, numpy scalars/dtypes) "
     "are dropped; tuple/frozenset/function/method/cell are immutable containers; dict/list/set/ndarray/instances are mutable",
@@ -71,7 +73,11 @@ MANIFEST = {
                   "implementation; mutability is by type; JSON text syntax and float printing are trusted glue.",
 }
 
-DEVNULL = io.StringIO()
+
+
+def translate(ctx):
+    trp.run()
+
 
 
 @contextlib.contextmanager
@@ -710,7 +716,7 @@ def run_flow(spec, how, hist, work, graphs: list, stats: dict):
     try:
         c = clone(m, how, work)
     except Exception as e:  # noqa
-        fail(f"clone:{cls}:{how}:raises", f"{cls}: {how} round trip raises {type(e).__name__}: {str(e)[:150]}",
+        fail(f"clone:{cls}:{how.replace('_file', '')}:raises", f"{cls}: {how} round trip raises {type(e).__name__}: {str(e)[:150]}",
              f"{type(e).__name__}: {e}"[:300], "an equivalent model")
         return fails
     g0 = Graph(m, c)
@@ -1089,8 +1095,11 @@ def _run_shards(ctx, texts, prefix, res: CorrResult, describe):
 # =============================================================================================== correspondence
 
 def correspondence(ctx) -> CorrResult:
+    import time as _t
     res = CorrResult()
+    t0 = _t.time()
     flow = _flow_all(ctx)
+    ctx.log(f"flow: {len(flow['cases'])} original/clone histories, {len(flow['graphs'])} graphs, {_t.time() - t0:.1f}s")
     stats = flow["stats"]
     rng = ctx.rng
     # ---- (a) real object graphs through the verified checker
@@ -1102,6 +1111,7 @@ def correspondence(ctx) -> CorrResult:
     gshards = [items[i:i + per] for i in range(0, len(items), per)]
     _run_shards(ctx, [graph_shard(s) for s in gshards], "graphs", res,
                 lambda k, i: (f"graph:{gshards[k][i]['where']}", {"spec": gshards[k][i]["spec"]}, gshards[k][i]["verdict"]))
+    ctx.log(f"graphs: {len(items)} evaluated by the checker in Coq, cumulative {_t.time() - t0:.1f}s")
     rejected = [it for it in items if not it["verdict"]["ok"]]
     for it in rejected[:50]:
         g = it["graph"]
@@ -1127,6 +1137,7 @@ def correspondence(ctx) -> CorrResult:
     vsh = [list(range(i, min(i + perv, len(vlines)))) for i in range(0, len(vlines), perv)]
     _run_shards(ctx, [variant_shard([vlines[j] for j in idx]) for idx in vsh], "variants", res,
                 lambda k, i: ("variants:history", vcases[vsh[k][i]][0], vcases[vsh[k][i]][1]))
+    ctx.log(f"variants: {len(vlines)} histories, cumulative {_t.time() - t0:.1f}s")
     # ---- (c) portable codec
     nport = ctx.scale(40, 800)
     pitems, pmeta = [], []
@@ -1157,6 +1168,7 @@ def correspondence(ctx) -> CorrResult:
     psh = [list(range(i, min(i + perp, len(pitems)))) for i in range(0, len(pitems), perp)]
     _run_shards(ctx, [portable_shard([pitems[j] for j in idx]) for idx in psh], "portable", res,
                 lambda k, i: (pmeta[psh[k][i]][0], {"spec": pmeta[psh[k][i]][1]}, None))
+    ctx.log(f"portable: {len(pitems)} checks, cumulative {_t.time() - t0:.1f}s")
     # ---- evidence
     res.evaluations = len(items) + len(vlines) + len(pitems)
     res.distinct_nontrivial = (len({(it["where"], json.dumps(it["spec"], sort_keys=True)) for it in items if it["verdict"]["shared"] >= 0
@@ -1229,20 +1241,31 @@ def _col(simout: dict, k: int) -> dict:
     return {n: [[row[k]] for row in rows] for n, rows in simout.items()}
 
 
-def check_variant_vs_singleton(rng, info) -> list:
-    """variant k of a multi-variant model vs the single-variant model given variant k's parameter values"""
-    import irispie as ir
-    fails = []
+def gen_variant_check(rng):
     spec = gen_spec(rng, rng.choice(["sim", "sim", "sim", "seq", "var"]))
     spec["nv"] = rng.choice([2, 3, 4])
     spec["solved"] = True
-    kind = spec["kind"]
-    if kind == "sim":
+    op = None
+    if spec["kind"] == "sim":
         T = SIM_TEMPLATES[spec["template"]]
         for n in T["vary"]:
             spec["params"].setdefault(n, [T["base"][n]])
-        m = build(spec)
         op = {"op": "simulate", "size": _rnd(rng, -1, 1), "ant": rng.random() < 0.4, "at": rng.randint(0, 3)}
+    elif spec["kind"] == "seq":
+        spec["params"] = {n: [_rnd(rng, 0.05, 0.9) for _ in range(spec["nv"])] for n in SEQ_TEMPLATES[spec["template"]]["params"]}
+    else:
+        spec["nv"] = 2
+    return spec, op
+
+
+def check_variant_vs_singleton(spec, op, info) -> list:
+    """variant k of a multi-variant model vs the single-variant model given variant k's parameter values"""
+    import irispie as ir
+    fails = []
+    kind = spec["kind"]
+    if kind == "sim":
+        T = SIM_TEMPLATES[spec["template"]]
+        m = build(spec)
         sim_m = apply_op(m, op, spec)
         flt_m = apply_op(m, {"op": "filter", "size": 0.5}, spec) if T.get("filterable") else None
         om = observe(m)
@@ -1271,7 +1294,6 @@ def check_variant_vs_singleton(rng, info) -> list:
                                      where, "equal steady state, solution, simulation (1e-12)"))
                 break
     elif kind == "seq":
-        spec["params"] = {n: [_rnd(rng, 0.05, 0.9) for _ in range(spec["nv"])] for n in SEQ_TEMPLATES[spec["template"]]["params"]}
         m = build(spec)
         sim_m = apply_op(m, {"op": "simulate"}, spec)
         for k in range(spec["nv"]):
@@ -1287,7 +1309,6 @@ def check_variant_vs_singleton(rng, info) -> list:
                                      "equal simulation (1e-12)"))
                 break
     else:
-        spec["nv"] = 2
         m = build(spec)
         om = observe(m)
         full = var_data(spec)
@@ -1316,10 +1337,9 @@ def _norm(p):
     return json.loads(json.dumps(p))
 
 
-def check_portable(rng, work, info) -> list:
+def check_portable(spec, work, info) -> list:
     import irispie as ir
     fails = []
-    spec = gen_spec(rng, "sim")
     T = SIM_TEMPLATES[spec["template"]]
     if not T["portable"]:
         return fails
@@ -1390,6 +1410,8 @@ def check_portable(rng, work, info) -> list:
 
 
 def falsify(ctx, hints):
+    import time as _t
+    t0 = _t.time()
     flow = _flow_all(ctx)
     rng = ctx.rng
     fails = [Failure(f["key"], f["what"], f["input"], f["observed"], f["required"],
@@ -1398,15 +1420,20 @@ def falsify(ctx, hints):
     info = {"flows": len(flow["cases"]), "equivalence_checks": flow["stats"]["equiv_checks"],
             "interference_checks": flow["stats"]["interference_checks"], "variant_checks": 0, "portable_checks": 0}
     for _ in range(ctx.scale(40, 1200)):
+        spec, op = gen_variant_check(rng)
         try:
-            fails += check_variant_vs_singleton(rng, info)
+            fails += check_variant_vs_singleton(spec, op, info)
         except Exception as e:  # noqa
-            fails.append(Failure(f"harness:variant:{type(e).__name__}", f"variant check raised {type(e).__name__}: {str(e)[:200]}", None))
+            fails.append(Failure(f"harness:variant:{type(e).__name__}", f"variant check raised {type(e).__name__}: {str(e)[:200]}",
+                                 {"spec": spec, "op": op}))
     for _ in range(ctx.scale(25, 600)):
+        spec = gen_spec(rng, "sim")
         try:
-            fails += check_portable(rng, ctx.work, info)
+            fails += check_portable(spec, ctx.work, info)
         except Exception as e:  # noqa
-            fails.append(Failure(f"harness:portable:{type(e).__name__}", f"portable check raised {type(e).__name__}: {str(e)[:200]}", None))
+            fails.append(Failure(f"harness:portable:{type(e).__name__}", f"portable check raised {type(e).__name__}: {str(e)[:200]}",
+                                 {"spec": spec}))
+    ctx.log(f"falsifier: {info}, {_t.time() - t0:.1f}s")
     seen, uniq = set(), []
     for f in fails:
         if f.key not in seen:
@@ -1419,14 +1446,18 @@ def replay(ctx, failure: dict):
     """re-run the recorded input"""
     inp = failure.get("input") or {}
     key = failure["key"]
+    info = {"variant_checks": 0, "portable_checks": 0}
+    fs = []
     if "history" in inp:
         stats = {"equiv_checks": 0, "interference_checks": 0, "ops": {}, "op_errors": 0}
-        fs = run_flow(inp["spec"], inp["clone"], inp["history"], ctx.work, [], stats)
-        for f in fs:
-            if f["key"] == key:
-                return Failure(f["key"], f["what"], f["input"], f["observed"], f["required"])
-        return None
-    fs, _ = falsify(ctx, {})
+        fs = [Failure(f["key"], f["what"], f["input"], f["observed"], f["required"])
+              for f in run_flow(inp["spec"], inp["clone"], inp["history"], ctx.work, [], stats)]
+    elif key.startswith("variant-vs-singleton") and "spec" in inp:
+        fs = check_variant_vs_singleton(inp["spec"], inp.get("op"), info)
+    elif key.startswith("portable") and "spec" in inp:
+        fs = check_portable(inp["spec"], ctx.work, info)
+    else:
+        fs, _ = falsify(ctx, {})
     for f in fs:
         if f.key == key:
             return f
